@@ -1,0 +1,12 @@
+//go:build verif
+
+package bstream
+
+// Hooks for the verification harness (build tag "verif", add-only).
+
+// VerifReadRawMessage runs the block reader's generic readMessage with the identity decoder:
+// it returns the raw bytes of the next message exactly as the reader's framing delivers them to
+// the protobuf decoder, or the error readMessage returns.
+func VerifReadRawMessage(r *DBinBlockReader) ([]byte, error) {
+	return readMessage(r, func(message []byte) ([]byte, error) { return message, nil })
+}
